@@ -35,9 +35,16 @@
 use std::isize;
 use std::marker::PhantomData;
 use std::ops::Deref;
+#[cfg(not(sighook_verif))]
 use std::sync::atomic::{self, AtomicPtr, AtomicUsize, Ordering};
+#[cfg(not(sighook_verif))]
 use std::sync::{Mutex, MutexGuard, PoisonError};
+#[cfg(not(sighook_verif))]
 use std::thread;
+#[cfg(sighook_verif)]
+use std::sync::PoisonError;
+#[cfg(sighook_verif)]
+use verif_shim::{self as atomic, thread, AtomicPtr, AtomicUsize, Box, Mutex, MutexGuard, Ordering};
 
 use libc;
 
@@ -213,6 +220,20 @@ impl<T> HalfLock<T> {
             _guard: guard,
             lock: self,
         }
+    }
+}
+
+#[cfg(sighook_verif)]
+impl<T> HalfLock<T> {
+    /// Addresses of the shared words (verification harness only).
+    pub(crate) fn verif_layout(&self) -> [(&'static str, usize); 5] {
+        [
+            ("data", &self.data as *const _ as usize),
+            ("generation", &self.generation as *const _ as usize),
+            ("lock0", &self.lock[0] as *const _ as usize),
+            ("lock1", &self.lock[1] as *const _ as usize),
+            ("mutex", &self.write_mutex as *const _ as usize),
+        ]
     }
 }
 
